@@ -39,7 +39,9 @@ RULE = ("circuits on 1-4 qubits with 0-4 placeholders (two-qubit, paired one-qub
         "place; pairs of halves whose two bases are nearly the same decomposition (same coefficients, sequences differing only by trailing "
         "operations / in one operation / in one coefficient) next to equal, separately built bases; every set partition of four halves of one basis "
         "(and of three joint placeholders / a pair plus a lone half / a joint placeholder plus a pair) into groups, count and bases consistent: blocks "
-        "of three or four elements are refused, blocks of one or two are decomposed. "
+        "of three or four elements are refused, blocks of one or two are decomposed; bases whose sequences hold operations that do nothing to the "
+        "state (explicit identity gates alone / repeated / around other operations and markers, zero-angle rotations) next to empty sequences, "
+        "every map, explicit and preset choice. "
         "non-trivial = at least one placeholder; distinct by payload")
 ASSUMPTIONS = ["QuantumCircuit.copy/append/data assignment and Instruction.definition are Qiskit's (modelled as list operations)",
                "a single running-offset step (overwrite + inserts / delete) is modelled as one take/++/drop splice"]
@@ -238,6 +240,37 @@ def _family_near_bases():
     yield _fixed(3, instrs, [short, longer, rzz], [[4, 5], [3, 0], [1]], [0, 1, 5], mode="near_basis")
 
 
+_SYNI = {"kind": "synthetic", "coeffs": ["1/2", "1/4", "1/4", "-1/2"],
+         "maps": [[[_o("id")], [_o("x")]], [[_o("h"), _o("id"), _o("qpd_measure")], [_o("id"), _o("id")]], [[], [_o("s"), _o("id")]],
+                  [[_o("rz", 0.0), _o("id"), _o("p", 0.0)], [_o("id"), _o("qpd_measure"), _o("id")]]]}
+_SYNI1 = {"kind": "synthetic", "coeffs": ["1/2", "1/4", "1/4", "1"], "maps": [[[_o("id"), _o("z")]], [[]], [[_o("id")]], [[_o("rx", 0.0), _o("u", 0.0, 0.0, 0.0)]]]}
+
+
+def _family_trivial_ops():
+    """Bases whose operation sequences contain operations that do nothing to the state -- explicit identity gates (alone, repeated, before /
+    after / between other operations and markers), zero-angle rotations -- next to empty sequences.  "Exactly the chosen map's operation
+    sequence" includes them: an identity-only sequence is a sequence of identity gates, not an empty one.  Joint placeholders, pairs of
+    halves, standalone halves; every map; explicit and preset map choice; in place or not."""
+    body = [_g("h", 0), _p2([0, 1], 0), _g("cx", 1, 2), _p1(2, 0, 0, lab="cut_3"), _p1(1, 1, 0), _g("z", 0), _p1(0, 0, 1, lab="cut_3"), _g("x", 2)]
+    ids = [[1], [3, 6], [4]]
+    for k in range(4):
+        yield _fixed(3, body, [_SYNI, _SYNI1], ids, [k, (k + 1) % 4, (k + 2) % 4], inplace=(k == 3))
+        yield _fixed(3, body, [_SYNI, _SYNI1], [[4], [6, 3], [1]], [k, k, (k + 3) % 4], cregs=[["c", 1]] if k % 2 else [])
+    # map choice omitted, the placeholders carry their map ids
+    two = [_p2([1, 0], 0), _g("h", 1), _p1(0, 1, 0)]
+    for a, b in ((1, 0), (0, 2), (3, 3), (2, 1)):
+        c = _fixed(2, two, [_SYNI, _SYNI1], [[0], [2]], [a, b], mode="none_preset", inplace=(a == 3))
+        yield c
+    # a circuit on one qubit whose only instructions are identity-only placeholders
+    lone = [_p1(0, 0, 0), _p1(0, 0, 0)]
+    yield _fixed(1, lone, [_SYNI1], [[0], [1]], [2, 2])
+    yield _fixed(1, lone, [_SYNI1], [[1], [0]], [2, 1])
+    # a real gate basis next to them, an identity gate of the circuit itself next to the placeholder (kept like any other instruction)
+    mix = [_g("id", 0), _p2([0, 1], 0), _g("id", 1), _p2([1, 0], 1), _g("id", 0)]
+    for a, b in ((0, 0), (1, 3), (3, 5), (2, 1)):
+        yield _fixed(2, mix, [_SYNI, {"kind": "gate", "gate": "cx", "params": []}], [[1], [3]], [a, b])
+
+
 def _set_partitions(items):
     if not items:
         yield []
@@ -286,6 +319,7 @@ def cases(rng, tier):
     yield from _family_shared_object()
     yield from _family_near_bases()
     yield from _family_map_forms()
+    yield from _family_trivial_ops()
     N = 250 if tier == "quick" else 5000
     for _ in range(N):
         nq = rng.randint(1, 4)
@@ -385,7 +419,7 @@ def _materialise(payload):
     instrs = [dict(i) for i in payload["instrs"]]
     mode = payload["mode"]
     map_ids = [rng.randrange(len(bases[instrs[d[0]]["basis"]].maps)) for d in ids]
-    if payload.get("map_ids") is not None and mode in ("valid", "near_basis", "group_shape"):
+    if payload.get("map_ids") is not None and mode in ("valid", "near_basis", "group_shape", "none_preset"):
         map_ids = list(payload["map_ids"])      # the deterministic families name their map ids
     if payload.get("preset") is not None:
         # the placeholders already carry (other) map ids; an explicit map choice overrides them
